@@ -36,6 +36,14 @@ def shadow_creation(chk, pid):
     for f_, what in (("parent", "its own parent"), ("root", "its own root")):
         ok = f_ in ws and canon(ws[f_].value) == canon(paper) and ws[f_].seq < w.seq
         chk.ob("C09.R1", ok, CORE, host, "shadow-rerooted:%s" % f_, "the shadow is %s (a stand-alone tree)" % what, where=fi.where)
+    # the copy carries a deep copy of the whole live tree with it (deepcopy follows .parent): the root pointer of every node BELOW the shadow still names that dead copy
+    # unless the re-rooting descends - a node whose root is the dead copy marks the wrong tree stale and, when an algo refreshes `target.root`, updates a tree that was
+    # never set up (a sub-strategy two levels down raises on its first rebalance)
+    below = [e for e in S.events if e.seq < w.seq and sym.contains(e.recv if e.kind == "call" else e.obj if e.kind == "write" else None, lambda n: n == paper or canon(n) == canon(paper))
+             and ((e.kind == "call" and e.name == "_set_root" and e.args and canon(e.args[0]) == canon(paper) and canon(e.recv) != canon(paper))
+                  or (e.kind == "write" and e.field == "root" and canon(e.value) == canon(paper) and canon(e.obj) != canon(paper)))]
+    chk.ob("C09.R1", bool(below), CORE, host, "shadow-subtree-rerooted", "every node below the shadow is re-rooted at the shadow too (the copy is a stand-alone TREE, not a stand-alone node)",
+           where=ws["root"].where if "root" in ws else fi.where, expected="paper._set_root(paper) (or an equivalent descent over the copy's children)", found="only the copy's own root is set")
     ok = "_paper_trade" in ws and canon(ws["_paper_trade"].value) == canon(sym.FALSE)
     chk.ob("C09.R1", ok, CORE, host, "shadow-not-paper-trading", "the shadow itself computes its own index (no shadow of the shadow)", where=fi.where)
     calls = [e for e in S.events if e.kind == "call" and e.recv is not None and canon(e.recv) == canon(paper)]
